@@ -19,7 +19,6 @@ type RSchema struct {
 
 	pattern       string
 	compileOnce   sync.ErrOnce
-	generatorOnce sync.ErrOnceWithValue[*reggen.Generator]
 	generatorSeed int64
 }
 
@@ -77,17 +76,14 @@ func (s *RSchema) Example() ([]byte, error) {
 }
 
 func (s *RSchema) generateExample() ([]byte, error) {
-	g, err := s.generatorOnce.Do(func() (*reggen.Generator, error) {
-		g, err := reggen.NewGenerator(s.pattern)
-		if err != nil {
-			return nil, err
-		}
-		g.SetSeed(s.generatorSeed)
-		return g, nil
-	})
+	// The generator keeps the state of its random source between calls, so
+	// a fresh one is used every time: the same schema always gives the same
+	// example, and concurrent calls do not share anything.
+	g, err := reggen.NewGenerator(s.pattern)
 	if err != nil {
 		return nil, err
 	}
+	g.SetSeed(s.generatorSeed)
 
 	return []byte(g.Generate(1)), nil
 }
